@@ -530,3 +530,11 @@ EQUIVS = [
     E("c03-eq-id-eq-form", VAL, "    ):\n        raise StorageError(\"invalid: Bad id\")",
       "    ):\n        raise StorageError(\"invalid: id is not the event hash\")"),
 ]
+
+# functions whose syntactic mutants are used for the thorough tier's sensitivity figure (sa/automut.py)
+ANCHORS = [
+    "nostr_relay.storage.db:DBStorage.add_event",
+    "nostr_relay.storage.kv:LMDBStorage.add_event",
+    "nostr_relay.validators:get_validator",
+    "nostr_relay.validators:is_signed",
+]
